@@ -208,30 +208,45 @@ def addr_rule(ctx: Ctx, rid: str = "R03.addr") -> None:
     c = m.cls("DecodedAddress")
     init = m.method(c, "__init__", own=True)
     sn = init.params[0]
-    assigns: list[tuple[str, ast.AST]] = []
-    for n in init.node.body:
-        if isinstance(n, (ast.Assign, ast.AnnAssign)) and getattr(n, "value", None) is not None:
-            t = n.targets[0] if isinstance(n, ast.Assign) else n.target
-            if isinstance(t, ast.Attribute) and isinstance(t.value, ast.Name) and t.value.id == sn:
-                assigns.append((t.attr, n.value))
     need = ["full_address", "tag", "cache_set_index", "byte_offset", "block_alinged_address", "block_offset", "word_alinged_address"]
-    have = {a for a, _ in assigns}
-    for a in need:
-        if a not in have:
-            raise AnalysisError(f"anchor vanished: DecodedAddress.{a}")
+    for p_ in ("num_index_bits", "num_block_bits", "address"):
+        if p_ not in init.params:
+            raise AnalysisError(f"anchor vanished: parameter {p_} of DecodedAddress.__init__")
+    from ..absrun import AbsRun
     grid = [(i, b) for i in range(0, 7) for b in range(0, 5)]
     bad: dict = {}
+    tag_bits_bad = None
     for (ib, bb) in grid:
-        env = {"address": Form.var("address")}
-        folder = Folder(m, init.module, None, {"num_index_bits": Val(ib), "num_block_bits": Val(bb)})
-        ev = Evaluator(env, folder)
+        # the constructor is run by the abstract interpreter with the address symbolic and the geometry constant: locals, named
+        # constants of the module, masks built from shifts and the order of the assignments do not matter
+        stored: dict = {}
+
+        def on_store(t, v, ev):
+            if isinstance(t, ast.Attribute) and isinstance(t.value, ast.Name) and t.value.id == sn:
+                stored[t.attr] = v
+                return True
+            return False
+
+        def on_load(e, ev):
+            if isinstance(e, ast.Attribute) and isinstance(e.value, ast.Name) and e.value.id == sn and e.attr in stored:
+                v = stored[e.attr]
+                if isinstance(v, Inconclusive):
+                    raise v
+                return v
+            return None
+
+        run = AbsRun(m, init, {"address": Form.var("address"), "num_index_bits": Form.k(ib), "num_block_bits": Form.k(bb)}, {},
+                     on_store=on_store, on_load=on_load)
+        run.lenient = True
         try:
-            for a, v in assigns:
-                if a in ("num_index_bits", "num_block_bits", "num_tag_bits"):
-                    continue
-                ev.env[f"{sn}.{a}"] = ev.ev(v)
+            run.run()
         except Inconclusive as exc:
-            raise AnalysisError(f"{rid}: DecodedAddress.{a} is outside the bit-slice domain: {exc}")
+            raise AnalysisError(f"{rid}: DecodedAddress.__init__ is outside the abstract interpreter: {exc}")
+        for a in need:
+            if a not in stored:
+                raise AnalysisError(f"anchor vanished: DecodedAddress.{a}")
+            if isinstance(stored[a], Inconclusive):
+                raise AnalysisError(f"{rid}: DecodedAddress.{a} is outside the bit-slice domain: {stored[a]}")
         lo_blk, lo_idx, lo_tag = 2, 2 + bb, 2 + bb + ib
         want = {
             "full_address": Form.field("address", 0, 32),
@@ -243,9 +258,12 @@ def addr_rule(ctx: Ctx, rid: str = "R03.addr") -> None:
             "block_alinged_address": Form.field("address", lo_idx, 32).lshift(lo_idx),
         }
         for a, w in want.items():
-            got = ev.env[f"{sn}.{a}"]
+            got = stored[a]
             if got != w and a not in bad:
                 bad[a] = (ib, bb, got.describe(), w.describe())
+        tb = stored.get("num_tag_bits")
+        if tb is not None and tag_bits_bad is None and not (isinstance(tb, Form) and tb.is_const() and tb.const == 32 - lo_tag):
+            tag_bits_bad = (ib, bb)
     for a in need:
         if a in bad:
             ib, bb, got, w = bad[a]
@@ -255,14 +273,8 @@ def addr_rule(ctx: Ctx, rid: str = "R03.addr") -> None:
         else:
             r.inst(f"DecodedAddress.{a}", {"geometries": len(grid)})
     # num_tag_bits is what is left of 32
-    folder = Folder(m, init.module, None, {"num_index_bits": Val(3), "num_block_bits": Val(2)})
-    for a, v in assigns:
-        if a == "num_tag_bits":
-            try:
-                ok = folder.fold(v) == 32 - (3 + 2 + 2)
-            except Exception:
-                ok = False
-            r.check(ok, "DecodedAddress.num_tag_bits", init.loc(), "num_tag_bits is not 32 - (index + block + 2)")
+    r.check(tag_bits_bad is None, "DecodedAddress.num_tag_bits", init.loc(), "num_tag_bits is not 32 - (index + block + 2)"
+            + (f" (with {tag_bits_bad[0]} index bits / {tag_bits_bad[1]} block bits)" if tag_bits_bad else ""))
     # every cache class decodes with the cache's own geometry
     for cn in ("BaseCacheMemorySystem",):
         f = m.method(cn, "_decode_address", own=True)
